@@ -118,3 +118,9 @@ fn c17_history_2() {
 fn c17_history_4() {
     history(4)
 }
+// HARNESS props=C17,C06 tier=thorough profile=ops_hist6 shape="constructor, then ANY 6 transactions over {add_operator, remove_operator, transfer_ownership}, then is_operator and execute"
+#[kani::proof]
+#[kani::stub(soroban_sdk::model::invoke_raw, probe)]
+fn c17_history_6() {
+    history(6)
+}
